@@ -10,6 +10,7 @@ package profile
 
 //@ func (g *VarGenerator) GenExpressionVar(quantification Quantification, cardinality *VariableCardinality) Variable
 //@   requires g != nil
+//@   requires [C17:counter] deref(g).counter >= 0
 //@   ensures [C07:name-from-list-or-fallback] (old(deref(g).counter) >= 0 && old(deref(g).counter) < len(old(deref(g).vars)) ==> result.Name == old(deref(g).vars)[old(deref(g).counter)]) && (old(deref(g).counter) >= len(old(deref(g).vars)) ==> result.Name == "X" + itoa(old(deref(g).counter)))
 //@   ensures [C07:counter-advances] deref(g).counter == old(deref(g).counter) + 1 && deref(g).vars == old(deref(g).vars)
 //@   ensures [C07:fields] result.Quantification == quantification && result.Cardinality == cardinality
@@ -31,6 +32,7 @@ package profile
 //@   requires [C01:operand] okOperand(self)
 //@   ensures [C01:negates] holds(result) == !holds(self)
 //@   ensures [C01:stays-operand] okOperand(result)
+//@   ensures [C17:non-nil] result != nil
 
 //@ func NewAnd(negated bool, body []Rule) AndRule
 //@   ensures [C01:fields] result.Negated == negated && result.Body == body
@@ -132,15 +134,21 @@ package profile
 //@   ensures [C01:comparison] (c.Operator == GTEQ ==> result == ">= " + itoa(c.Value)) && (c.Operator == LTEQ ==> result == "<= " + itoa(c.Value)) && (c.Operator == EQ ==> result == "= " + itoa(c.Value))
 
 //@ func newExpression(negated bool, name string, varGenerator *VarGenerator) Expression
+//@   requires [C17:counter] deref(varGenerator).counter >= 0
 //@   requires varGenerator != nil
+//@   ensures [C17:counter] deref(varGenerator).counter >= 0
 //@   ensures [C12:fields] result.Negated == negated && result.Name == name && result.Variable != nil
 
 //@ func newTopLevelExpression(negated bool, name string, messageExpression string, level string, targetClass string, varGenerator *VarGenerator) TopLevelExpression
+//@   requires [C17:counter] deref(varGenerator).counter >= 0
 //@   requires varGenerator != nil
+//@   ensures [C17:counter] deref(varGenerator).counter >= 0
 //@   ensures [C12:fields] result.Negated == negated && result.Name == name && result.Level == level && result.ClassGenerator == targetClass && result.Message == parseMsg(messageExpression) && result.Variable != nil
 
 //@ func ParseExpression(name string, data *y.Yaml, level string, varGenerator *VarGenerator) (Rule, error)
+//@   requires [C17:counter] deref(varGenerator).counter >= 0
 //@   requires data != nil && varGenerator != nil && deref(data).data != nil
+//@   ensures [C17:counter] deref(varGenerator).counter >= 0
 //@   ensures [C12:named-and-levelled] result1 == nil ==> (is(result0, profile.TopLevelExpression) && result0.(profile.TopLevelExpression).Name == name && result0.(profile.TopLevelExpression).Level == level && !result0.(profile.TopLevelExpression).Negated)
 //@   ensures [C12:message-as-written-or-default] let n = asref(*yaml.Node, yamlValueFor(ref(old(deref(data).data)), box(string, "message"))) :: (result1 == nil ==> result0.(profile.TopLevelExpression).Message == parseMsg(ite(n != nil && old(deref(n).Kind) == 8 && old(deref(n).Tag) == "!!str", old(deref(n).Value), "Validation error")))
 
@@ -153,3 +161,113 @@ package profile
 //@   loop 1 /* for i := 0; i < size; i++ */
 //@     invariant [C15] i >= 0 && i <= size && (forall k int :: 0 <= k && k < len(rules) ==> (is(rules[k], profile.TopLevelExpression) && rules[k].(profile.TopLevelExpression).Level == level))
 //@     invariant [C15] let N = asref(*yaml.Node, yamlValueFor(ref(old(deref(profile).data)), box(string, level))) :: ruleNames(rules) == listedDefined(take(old(deref(N).Content), i), old(heap(*yaml.Node)), ref(old(deref(validations).data)))
+
+// ---- safety of the profile parser (C17): which YAML nodes must have been found ---------------------------------------------
+
+//@ func Parse(doc *y.Yaml) (Profile, error)
+//@   requires doc != nil && deref(doc).data != nil
+
+//@ func ParsePrefixes(y *y.Yaml) (ProfileContext, error)
+//@   requires y != nil && deref(y).data != nil
+
+//@ func parseExpressionValue(variable Variable, data *y.Yaml, varGenerator *VarGenerator) (Rule, error)
+//@   requires [C17:counter] deref(varGenerator).counter >= 0
+//@   requires data != nil && deref(data).data != nil && varGenerator != nil
+//@   ensures [C17:counter] deref(varGenerator).counter >= 0
+//@   ensures [C17:rule-or-error] result1 == nil ==> result0 != nil
+
+//@ func parseNestedExpression(data *y.Yaml, negated bool, variable Variable, path path.PropertyPath, varGenerator *VarGenerator) (Rule, error)
+//@   requires [C17:counter] deref(varGenerator).counter >= 0
+//@   requires data != nil && deref(data).data != nil && varGenerator != nil
+//@   ensures [C17:counter] deref(varGenerator).counter >= 0
+//@   ensures [C17:rule-or-error] result1 == nil ==> result0 != nil
+
+//@ func parseNot(not *y.Yaml, variable Variable, varGenerator *VarGenerator) (Rule, error)
+//@   requires [C17:counter] deref(varGenerator).counter >= 0
+//@   requires not != nil && deref(not).data != nil && varGenerator != nil
+//@   ensures [C17:counter] deref(varGenerator).counter >= 0
+//@   ensures [C17:rule-or-error] result1 == nil ==> result0 != nil
+
+//@ func parseAnd(and *y.Yaml, variable Variable, varGenerator *VarGenerator) (Rule, error)
+//@   requires [C17:counter] deref(varGenerator).counter >= 0
+//@   requires and != nil && deref(and).data != nil && varGenerator != nil
+//@   ensures [C17:counter] deref(varGenerator).counter >= 0
+//@   ensures [C17:rule-or-error] result1 == nil ==> result0 != nil
+//@   loop 1 /* for i := 0; i < size; i++ */
+//@     invariant [C17] i >= 0 && deref(varGenerator).counter >= 0
+
+//@ func parseOr(or *y.Yaml, variable Variable, varGenerator *VarGenerator) (Rule, error)
+//@   requires [C17:counter] deref(varGenerator).counter >= 0
+//@   requires or != nil && deref(or).data != nil && varGenerator != nil
+//@   ensures [C17:counter] deref(varGenerator).counter >= 0
+//@   ensures [C17:rule-or-error] result1 == nil ==> result0 != nil
+//@   loop 1 /* for i := 0; i < size; i++ */
+//@     invariant [C17] i >= 0 && deref(varGenerator).counter >= 0
+
+//@ func parseConditional(ifContent *y.Yaml, thenContent *y.Yaml, optElseContent *y.Yaml, variable Variable, generator *VarGenerator) (Rule, error)
+//@   requires [C17:counter] deref(generator).counter >= 0
+//@   requires ifContent != nil && deref(ifContent).data != nil && thenContent != nil && deref(thenContent).data != nil && optElseContent != nil && generator != nil
+//@   ensures [C17:counter] deref(generator).counter >= 0
+//@   ensures [C17:rule-or-error] result1 == nil ==> result0 != nil
+
+//@ func parseImplicitAnd(data *y.Yaml, variable Variable, varGenerator *VarGenerator) (Rule, error)
+//@   requires [C17:counter] deref(varGenerator).counter >= 0
+//@   requires data != nil && deref(data).data != nil && varGenerator != nil
+//@   ensures [C17:counter] deref(varGenerator).counter >= 0
+//@   ensures [C17:rule-or-error] result1 == nil ==> result0 != nil
+//@   loop 1 /* for _, pathString := range propertyConstraints */
+//@     invariant [C17] deref(varGenerator).counter >= 0
+
+//@ func parseImplicitRego(code *y.Yaml, variable Variable) (Rule, error)
+//@   requires code != nil && deref(code).data != nil
+//@   ensures [C17:rule-or-error] result1 == nil ==> result0 != nil
+
+//@ func ParseConstraint(path pathParser.PropertyPath, variable Variable, constraint *y.Yaml, varGenerator *VarGenerator) ([]Rule, error)
+//@   requires [C17:counter] deref(varGenerator).counter >= 0
+//@   requires constraint != nil && deref(constraint).data != nil && varGenerator != nil
+//@   ensures [C17:counter] deref(varGenerator).counter >= 0
+
+//@ func ParseRego(code *y.Yaml, negated bool, variable Variable, path pathParser.PropertyPath) (Rule, error)
+//@   requires code != nil && deref(code).data != nil
+//@   ensures [C17:rule-or-error] result1 == nil ==> result0 != nil
+
+//@ func parseQualifiedNestedExpression(qNested *y.Yaml, negated bool, variable Variable, propertyPath pathParser.PropertyPath, generator *VarGenerator, op CardinalityOperation) (Rule, error)
+//@   requires [C17:counter] deref(generator).counter >= 0
+//@   requires qNested != nil && deref(qNested).data != nil && generator != nil
+//@   ensures [C17:counter] deref(generator).counter >= 0
+//@   ensures [C17:rule-or-error] result1 == nil ==> result0 != nil
+
+//@ func parseDatatype(negated bool, variable Variable, path path.PropertyPath, argument *y.Yaml) (DatatypeRule, error)
+//@   requires argument != nil
+
+//@ func scalarList(in []*y.Yaml) ([]string, error)
+//@   requires forall j int :: 0 <= j && j < len(in) ==> (in[j] != nil && deref(in[j]).data != nil)
+
+//@ func stringifyNode(node *y.Yaml) (string, error)
+//@   requires node != nil && deref(node).data != nil
+
+//@ func newNestedExpression(negated bool, parent Variable, path path.PropertyPath, varGenerator *VarGenerator) NestedExpression
+//@   requires [C17:counter] deref(varGenerator).counter >= 0
+//@   requires varGenerator != nil
+//@   ensures [C17:counter] deref(varGenerator).counter >= 0
+
+//@ func (r NumericRule) IntArgument() (int, error)
+//@   requires r.Argument != nil
+
+//@ func (r NumericRule) FloatArgument() (float64, error)
+//@   requires r.Argument != nil
+
+//@ func newNumericComparison(negated bool, name string, operation CardinalityOperation, variable Variable, path path.PropertyPath, argument *y.Yaml) (NumericRule, error)
+//@   requires argument != nil
+
+//@ func parseMinInclusive(negated bool, variable Variable, path path.PropertyPath, argument *y.Yaml) (NumericRule, error)
+//@   requires argument != nil
+
+//@ func parseMaxInclusive(negated bool, variable Variable, path path.PropertyPath, argument *y.Yaml) (NumericRule, error)
+//@   requires argument != nil
+
+//@ func parseMinExclusive(negated bool, variable Variable, path path.PropertyPath, argument *y.Yaml) (NumericRule, error)
+//@   requires argument != nil
+
+//@ func parseMaxExclusive(negated bool, variable Variable, path path.PropertyPath, argument *y.Yaml) (NumericRule, error)
+//@   requires argument != nil
